@@ -524,6 +524,9 @@ def worker_task(task: dict) -> dict:
         st["probes"][name] = st["probes"].get(name, 0) + n
 
     for i in task["indices"]:
+        if runner.past(task.get("deadline")):
+            st["probes"]["tasks_cut_short_by_wall_clock_cap"] = 1
+            break
         cfg = gen_config(i, vseed, mode)
         res = execute_config(cfg)
         st["runs"] += 1
@@ -766,10 +769,11 @@ def main() -> int:
     counts = args.runs or ([3000, 400, 600] if args.tier == "quick" else [600_000, 40_000, 100_000])
     nfresh = args.fresh if args.fresh is not None else (12 if args.tier == "quick" else 96)
     tasks = []
+    deadline = runner.wall_cap(args.tier)
     for mode, n in zip(("module", "e2e", "fault"), counts):
         size = 100 if mode != "e2e" else 10
         for ch in runner.chunks(list(range(n)), size):
-            tasks.append({"mode": mode, "indices": ch, "vseed": vseed, "digests": args.digests})
+            tasks.append({"mode": mode, "indices": ch, "vseed": vseed, "digests": args.digests, "deadline": deadline})
     wp = isolate.Pool(core.workers())
     agg = {"module": 0, "e2e": 0, "fault": 0, "violation_count": 0, "fs_events": 0}
     probes: dict = {}
